@@ -11,7 +11,7 @@ add("C11","exploration",
 add("C05","exploration",
  "runtime monitoring: seeded table/query/partition generator; the real server aggregator, wire messages and client merge run in worker processes (forced partial transmissions) and as real dmap over SSH against several servers; oracle = independent reference evaluator + central-vs-partitioned comparison of the observed CSV results",
  "Held on the generated (table, query, partition) triples and e2e runs counted in the evidence; partitions up to 4 servers x 3 files x 2 forced transmissions per file in-process, up to 5 servers e2e.",
- "Trusted: reference evaluator (internal/mq) written from the documentation, Go strconv; avg over non-numeric lines compared between runs only; e2e uses one file per server (several files as a comma list are subject to the recorded command race c06.cmd-race).",
+ "Trusted: reference evaluator (internal/mq) written from the documentation, Go strconv; avg over non-numeric lines compared between runs only; e2e uses one file per server or several files behind one glob (comma lists are subject to the recorded command race c06.cmd-race; csv tables one file per server because the first line seen is the header).",
  "DESIGN.md §2 C05")
 add("C03","exploration",
  "runtime monitoring: exhaustive enumeration of selection vectors x context parameters through the real cat reader in worker processes, seeded regex/file generator, and real dgrep --plain runs (serverless + SSH, incl. pairs re-using a pattern with the opposite flag on one server); oracle = 25-line reference model of grep context semantics + Go regexp on the bare line",
@@ -69,7 +69,7 @@ add("C07","exploration",
  "Trusted: CRC32 self-description of the lines; host identity via DTAIL_HOSTNAME_OVERRIDE.",
  "DESIGN.md §2 C07")
 add("C06","exploration",
- "runtime monitoring: conservation oracle (real dmap fleets, long and pipe-fed runs, in-process tiers driving the real server-side aggregator with a slow consumer and the real client merge from N concurrent connections, race-detector pass in the thorough tier); conservation oracle over real dmap runs against fleets of 1-32 in-process servers (every line carries weight 1 and its file id; result grouped per file or per shared group), hook-trace monitor of the server-side aggregator's registration/closed/finished order, failpoint-style delays at the hook points, logical-time hang rule; plus an in-process tier merging messages from N concurrent connections into one global group",
+ "runtime monitoring: conservation oracle over real dmap runs (fleets, long and pipe-fed runs, files queued behind the read limit, race-detector pass in the thorough tier) against fleets of 1-32 in-process servers (every line carries weight 1 and its file id; result grouped per file or per shared group), hook-trace monitor of the server-side aggregator's registration/closed/finished order, failpoint-style delays at the hook points, logical-time hang rule; plus an in-process tier merging messages from N concurrent connections into one global group",
  "Held on the runs counted in the evidence (fleet sizes, files per server, limits, distinct aggregator event orders observed).",
  "Trusted: hook call sites for attribution only (the CSV decides); c06.cmd-race (a read command received after the aggregator and session had finished) is accepted only with that trace pattern, no excess, and deficits on servers showing it; files of received commands missing from a result are violations.",
  "DESIGN.md §2 C06")
